@@ -331,6 +331,10 @@ Definition dns64_relay_ttls (recs : list piece) (now : Z) : list Z :=
 Definition dns64_basis_reply (recs : list piece) (now : Z) : list Z := dns64_relay_ttls recs now.
 Definition dns64_ptr_reply (recs : list piece) (now : Z) : list Z :=
   dns64_ptr_synth_ttl :: dns64_relay_ttls recs now.
+(* the A-basis reply as repaired by props/C04/fix2.patch (finding dns64-abasis-gate; not in
+   /repo yet): every relayed TTL capped by the request tree's bound, as synthesise does *)
+Definition dns64_basis_reply_capped (recs consulted : list piece) (now : Z) : list Z :=
+  map (fun p => dns64_cap (dns64_bound None consulted) now (piece_ttl p now)) recs.
 
 (* ------------------------------------------------------------------ *)
 (** * 5. The store: set / remove / pointer-CAS                          *)
